@@ -38,13 +38,25 @@ MANIFEST = {
             "real coap_register_async / coap_check_async / coap_async_trigger / coap_async_set_delay / coap_free_async on the "
             "virtual clock against the model, event by event (transmissions, handler calls, the entry list with the stored "
             "request, session reference counts, the reported wait), plus an oracle that reads the property off the "
-            "implementation's own report.",
+            "implementation's own report. Block mode kept across the requests of a session (Model/ServerBlock.lean, op srvb): "
+            "handle_request's save / force COAP_BLOCK_SINGLE_BODY (FETCH, force-single-body resource) / restore of "
+            "session->block_mode around coap_handle_request_put_block, the re-assembly itself being C09's srcvStep: after ANY "
+            "sequence of request datagrams every session runs in the configured block mode (block_mode_restored, "
+            "block_mode_reported_is_configured) and a Block1 fragment with the More bit never reaches a handler in single-body "
+            "mode whatever preceded it (single_body_fragment_never_reaches_handler); tied by differential runs of 1-14 "
+            "datagrams (FETCH / force-single-body requests, 2-4 block uploads in order / lost / duplicated / reordered / "
+            "interleaved, block modes 0, 1, 3) with the handler's coap_get_data_large view and session->block_mode compared, "
+            "plus an oracle: one handler call per body with the concatenation of the blocks in single-body mode, one per "
+            "block with its offset in per-block mode.",
     "note": "Deferred responses: session close by the application / context teardown are not events of the async machine "
             "(C12 covers them); a delayed invocation "
             "whose handler sets no code (D13), requests with an Observe option and the proxy-URI resource are outside the "
             "async machine's scope. Partial: proxy forwarding itself (coap_proxy.c) is outside the model — the proxy resource's handler is treated as an "
             "application handler (Empty ACK + separate CON response), coap_split_proxy_uri is an oracle; handler verdicts of 5.08, "
-            "requests with a registered OSCORE option, libcoap-managed block transfer (block mode 0 only) and Empty/response codes "
+            "requests with a registered OSCORE option, libcoap-managed block transfer beyond the Block1 request stage of "
+            "handle_request (Block2 responses / lg_xmit, Q-Block, Request-Tag, out-of-order completion, Block1 for the "
+            "unknown-resource handler; liveness of the re-assembly is proved on decided instances only, its soundness is C09's) "
+            "and Empty/response codes "
             "are out of scope; the /.well-known/core listing is opaque (C20). Trusted: Lean kernel (+ propext, Classical.choice, "
             "Quot.sound), the T1 extractor, the H-sim harness/generator, the hand transcription M (checked against the compiled code "
             "on the cases run only).",
@@ -1388,6 +1400,12 @@ RULE = ("one line = one fresh server context + one request datagram: resource ta
         "message id, other peer), virtual time steps 0-5000 ticks, coap_async_trigger / coap_async_set_delay / "
         "coap_free_async on the k-th entry, coap_delete_resource on the k-th resource (between the two passes of a deferred "
         "request), session idle timeout 1-3 s, Hop-Limit and No-Response options; "
+        "+ n/5 `srvb` lines = one server context with block mode 0 / USE_LIBCOAP / USE_LIBCOAP|SINGLE_BODY, 1-3 resources "
+        "(30% COAP_RESOURCE_FLAGS_FORCE_SINGLE_BODY), 1-2 peers, 1-14 datagrams: plain requests of every method (FETCH "
+        "favoured), Block1 uploads of 2-4 blocks of 16/32/64 bytes (PUT/POST/FETCH/iPATCH; a block lost / duplicated / "
+        "reordered / the upload abandoned / undersized block / Content-Format change / Size1), a plain request in the middle of "
+        "an upload, handler verdicts of every class; per datagram the transmissions, the handler's coap_get_data_large view "
+        "(data, offset, total) and session->block_mode afterwards are compared; "
         "non-trivial = distinct line on which the model prescribes a reply or a handler call")
 TRUSTED_BASE = ["Lean 4.33 kernel; axioms allowed: propext, Classical.choice, Quot.sound (audited per theorem each run)",
                 "T1 extractor extract/server.c (evaluation of coap_option_check_critical, coap_option_check_repeatable, "
@@ -1398,8 +1416,11 @@ TRUSTED_BASE = ["Lean 4.33 kernel; axioms allowed: propext, Classical.choice, Qu
                 "M (CoapVerif/Model/Server.lean) is a hand transcription of coap_dispatch (request path), handle_request, no_response, "
                 "coap_new_error_response, check_token_size, coap_option_check_critical, coap_get_uri_path/_query, the async lookup "
                 "(coap_find_async_lkd by session + token) and last_con_mid; Model/Async.lean of coap_async.c, coap_check_async, the "
-                "async branch of handle_request and the idle-session reaper; checked against the compiled code only on the cases run"]
-ASSUMPTIONS = ["UDP endpoint of a fresh context per line: no OSCORE context, block mode 0 (application handles blocks), Q-Block not "
+                "async branch of handle_request and the idle-session reaper; Model/ServerBlock.lean of the block-mode stage of "
+                "handle_request (save / force / restore, exits of coap_handle_request_put_block around C09's srcvStep); checked "
+                "against the compiled code only on the cases run"]
+ASSUMPTIONS = ["UDP endpoint of a fresh context per line: no OSCORE context, block mode 0 (application handles blocks; op srvb: also "
+               "COAP_BLOCK_USE_LIBCOAP with / without COAP_BLOCK_SINGLE_BODY, COAP_BLOCK_MAX_SIZE bits 0), Q-Block not "
                "enabled, no Echo pending; earlier datagrams at the context (op srvq) are requests whose handler defers indefinitely "
                "(coap_register_async delay 0, never triggered) or answers directly; observers, caches and retransmission of separate "
                "responses are other properties' state (C11, C06/C08)",
